@@ -30,6 +30,12 @@ def convertEntries(entries):
     return result
 
 
+def isExit(value):
+    """break, continue or return reached while a part of an expression is
+    evaluated: the expression is left at once, the marker is not a value."""
+    return value.isBreak() or value.isContinue() or value.isReturn()
+
+
 def ownPosition(evaluate):
     """For nodes that convert, order or render values themselves: an error
     such a step raises without a position happened at this node."""
@@ -121,6 +127,8 @@ def invoke(fn, names_, args, environment, pos):
         arg = args[i]
         if isinstance(arg, NodeSpread):
             argvalue = arg.evaluate(environment)
+            if isExit(argvalue):
+                return argvalue
             if argvalue.isMap():
                 for key, value in argvalue.getSortedEntries():
                     values.append(value)
@@ -140,7 +148,7 @@ def invoke(fn, names_, args, environment, pos):
                 )
         else:
             try:
-                values.append(arg.evaluate(environment))
+                argvalue = arg.evaluate(environment)
             except RecursionError:
                 # an expression nested too deep: the innermost call or
                 # operator that could not go on is where it begins
@@ -149,6 +157,9 @@ def invoke(fn, names_, args, environment, pos):
                     "Maximum recursion depth exceeded",
                     pos,
                 )
+            if isExit(argvalue):
+                return argvalue
+            values.append(argvalue)
             names.append(names_[i])
     args_ = Args(pos)
     args_.addArgs(fn.getArgNames())
@@ -187,6 +198,8 @@ class NodeAnd:
     def evaluate(self, environment):
         for expression in self.expressions:
             value = expression.evaluate(environment)
+            if isExit(value):
+                return value
             if not value.isBoolean():
                 raise CklRuntimeError(
                     ValueString("ERROR"),
@@ -251,6 +264,8 @@ class NodeAssignDestructuring:
     @ownPosition
     def evaluate(self, environment):
         values = self.expression.evaluate(environment)
+        if isExit(values):
+            return values
         if values.isList():
             values = values.value
         elif values.isSet():
@@ -526,6 +541,8 @@ class NodeDefDestructuring:
     @ownPosition
     def evaluate(self, environment):
         value = self.expression.evaluate(environment)
+        if isExit(value):
+            return value
         if not value.isList() and not value.isSet():
             raise CklRuntimeError(
                 ValueString("ERROR"),
@@ -576,7 +593,11 @@ class NodeDeref:
     @ownPosition
     def evaluate(self, environment):
         idx = self.index.evaluate(environment)
+        if isExit(idx):
+            return idx
         value = self.expression.evaluate(environment)
+        if isExit(value):
+            return value
 
         if value == NULL:
             return NULL
@@ -663,8 +684,14 @@ class NodeDerefAssign:
     @ownPosition
     def evaluate(self, environment):
         idx = self.index.evaluate(environment)
+        if isExit(idx):
+            return idx
         container = self.expression.evaluate(environment)
+        if isExit(container):
+            return container
         value = self.value.evaluate(environment)
+        if isExit(value):
+            return value
 
         if container.isString():
             s = container.value
@@ -732,6 +759,8 @@ class NodeDerefInvoke:
     @ownPosition
     def evaluate(self, environment):
         obj_ = self.objectExpr.evaluate(environment)
+        if isExit(obj_):
+            return obj_
         if obj_.isObject():
             obj = obj_.findHolder(self.member)
             if obj is None:
@@ -793,8 +822,14 @@ class NodeDerefSlice:
     @ownPosition
     def evaluate(self, environment):
         value = self.expression.evaluate(environment)
+        if isExit(value):
+            return value
         start = self.start.evaluate(environment)
+        if isExit(start):
+            return start
         end = self.end and self.end.evaluate(environment)
+        if end is not None and isExit(end):
+            return end
 
         if value == NULL:
             return NULL
@@ -856,6 +891,8 @@ class NodeError:
 
     def evaluate(self, environment):
         value = self.expression.evaluate(environment)
+        if isExit(value):
+            return value
         raise CklRuntimeError(value, value, self.pos)
 
     def __repr__(self):
@@ -894,6 +931,8 @@ class NodeFor:
 
     def iterate(self, environment):
         lst = self.expression.evaluate(environment)
+        if isExit(lst):
+            return lst
         if lst.isInput():
             input_ = lst
             result = TRUE
@@ -1179,6 +1218,8 @@ class NodeIf:
     def evaluate(self, environment):
         for i in range(len(self.conditions)):
             value = self.conditions[i].evaluate(environment)
+            if isExit(value):
+                return value
             if not value.isBoolean():
                 raise CklRuntimeError(
                     ValueString("ERROR"),
@@ -1223,7 +1264,11 @@ class NodeIn:
 
     def evaluate(self, environment):
         value = self.expression.evaluate(environment)
+        if isExit(value):
+            return value
         container = self.list.evaluate(environment)
+        if isExit(container):
+            return container
         if container.isList():
             for item in container.value:
                 if value == item:
@@ -1318,6 +1363,8 @@ class NodeList:
         for item in self.items:
             if isinstance(item, NodeSpread):
                 lst = item.evaluate(environment)
+                if isExit(lst):
+                    return lst
                 if not (lst.isList() or lst.isSet() or lst.isMap()):
                     raise CklRuntimeError(
                         ValueString("ERROR"),
@@ -1331,7 +1378,10 @@ class NodeList:
                 for value in values:
                     result.addItem(value)
             else:
-                result.addItem(item.evaluate(environment))
+                value = item.evaluate(environment)
+                if isExit(value):
+                    return value
+                result.addItem(value)
         return result
 
     def __repr__(self):
@@ -1359,11 +1409,15 @@ class NodeListComprehension:
         result = ValueList()
         localEnv = environment.newEnv()
         lst = self.listExpr.evaluate(environment)
+        if isExit(lst):
+            return lst
         values = getCollectionValue(lst, self.what, self.pos)
         for listValue in values:
             localEnv.put(self.identifier, listValue)
             if self.conditionExpr:
                 condition = self.conditionExpr.evaluate(localEnv)
+                if isExit(condition):
+                    return condition
                 if not condition.isBoolean():
                     raise CklRuntimeError(
                         ValueString("ERROR"),
@@ -1372,9 +1426,15 @@ class NodeListComprehension:
                         self.pos,
                     )
                 if condition.value:
-                    result.addItem(self.valueExpr.evaluate(localEnv))
+                    value = self.valueExpr.evaluate(localEnv)
+                    if isExit(value):
+                        return value
+                    result.addItem(value)
             else:
-                result.addItem(self.valueExpr.evaluate(localEnv))
+                value = self.valueExpr.evaluate(localEnv)
+                if isExit(value):
+                    return value
+                result.addItem(value)
         return result
 
     def __repr__(self):
@@ -1437,7 +1497,11 @@ class NodeListComprehensionParallel:
         result = ValueList()
         localEnv = environment.newEnv()
         list1 = self.listExpr1.evaluate(environment)
+        if isExit(list1):
+            return list1
         list2 = self.listExpr2.evaluate(environment)
+        if isExit(list2):
+            return list2
         values1 = getCollectionValue(list1, self.what1, self.pos)
         values2 = getCollectionValue(list2, self.what2, self.pos)
         for i in range(max(len(values1), len(values2))):
@@ -1447,6 +1511,8 @@ class NodeListComprehensionParallel:
             localEnv.put(self.identifier2, listValue2)
             if self.conditionExpr:
                 condition = self.conditionExpr.evaluate(localEnv)
+                if isExit(condition):
+                    return condition
                 if not condition.isBoolean():
                     raise CklRuntimeError(
                         ValueString("ERROR"),
@@ -1455,9 +1521,15 @@ class NodeListComprehensionParallel:
                         self.pos,
                     )
                 if condition.value:
-                    result.addItem(self.valueExpr.evaluate(localEnv))
+                    value = self.valueExpr.evaluate(localEnv)
+                    if isExit(value):
+                        return value
+                    result.addItem(value)
             else:
-                result.addItem(self.valueExpr.evaluate(localEnv))
+                value = self.valueExpr.evaluate(localEnv)
+                if isExit(value):
+                    return value
+                result.addItem(value)
         return result
 
     def __repr__(self):
@@ -1528,7 +1600,11 @@ class NodeListComprehensionProduct:
         result = ValueList()
         localEnv = environment.newEnv()
         list1 = self.listExpr1.evaluate(environment)
+        if isExit(list1):
+            return list1
         list2 = self.listExpr2.evaluate(environment)
+        if isExit(list2):
+            return list2
         values1 = getCollectionValue(list1, self.what1, self.pos)
         values2 = getCollectionValue(list2, self.what2, self.pos)
         for listValue1 in values1:
@@ -1537,6 +1613,8 @@ class NodeListComprehensionProduct:
                 localEnv.put(self.identifier2, listValue2)
                 if self.conditionExpr:
                     condition = self.conditionExpr.evaluate(localEnv)
+                    if isExit(condition):
+                        return condition
                     if not condition.isBoolean():
                         raise CklRuntimeError(
                             ValueString("ERROR"),
@@ -1545,9 +1623,15 @@ class NodeListComprehensionProduct:
                             self.pos,
                         )
                     if condition.value:
-                        result.addItem(self.valueExpr.evaluate(localEnv))
+                        value = self.valueExpr.evaluate(localEnv)
+                        if isExit(value):
+                            return value
+                        result.addItem(value)
                 else:
-                    result.addItem(self.valueExpr.evaluate(localEnv))
+                    value = self.valueExpr.evaluate(localEnv)
+                    if isExit(value):
+                        return value
+                    result.addItem(value)
         return result
 
     def __repr__(self):
@@ -1618,10 +1702,13 @@ class NodeMap:
     def evaluate(self, environment):
         result = ValueMap()
         for i in range(len(self.keys)):
-            result.addItem(
-                self.keys[i].evaluate(environment),
-                self.values[i].evaluate(environment),
-            )
+            key = self.keys[i].evaluate(environment)
+            if isExit(key):
+                return key
+            value = self.values[i].evaluate(environment)
+            if isExit(value):
+                return value
+            result.addItem(key, value)
         return result
 
     def __repr__(self):
@@ -1661,11 +1748,15 @@ class NodeMapComprehension:
         result = ValueMap()
         localEnv = environment.newEnv()
         lst = self.listExpr.evaluate(environment)
+        if isExit(lst):
+            return lst
         values = getCollectionValue(lst, self.what, self.pos)
         for listValue in values:
             localEnv.put(self.identifier, listValue)
             if self.conditionExpr:
                 condition = self.conditionExpr.evaluate(localEnv)
+                if isExit(condition):
+                    return condition
                 if not condition.isBoolean():
                     raise CklRuntimeError(
                         ValueString("ERROR"),
@@ -1673,16 +1764,15 @@ class NodeMapComprehension:
                         f"but got {condition.type()}",
                         self.pos,
                     )
-                if condition.value:
-                    result.addItem(
-                        self.keyExpr.evaluate(localEnv),
-                        self.valueExpr.evaluate(localEnv),
-                    )
-            else:
-                result.addItem(
-                    self.keyExpr.evaluate(localEnv),
-                    self.valueExpr.evaluate(localEnv),
-                )
+                if not condition.value:
+                    continue
+            key = self.keyExpr.evaluate(localEnv)
+            if isExit(key):
+                return key
+            value = self.valueExpr.evaluate(localEnv)
+            if isExit(value):
+                return value
+            result.addItem(key, value)
         return result
 
     def __repr__(self):
@@ -1714,6 +1804,8 @@ class NodeNot:
 
     def evaluate(self, environment):
         value = self.expression.evaluate(environment)
+        if isExit(value):
+            return value
         if not value.isBoolean():
             raise CklRuntimeError(
                 ValueString("ERROR"),
@@ -1756,7 +1848,10 @@ class NodeObject:
     def evaluate(self, environment):
         result = ValueObject()
         for i in range(len(self.keys)):
-            result.addItem(self.keys[i], self.values[i].evaluate(environment))
+            value = self.values[i].evaluate(environment)
+            if isExit(value):
+                return value
+            result.addItem(self.keys[i], value)
         return result
 
     def __repr__(self):
@@ -1793,6 +1888,8 @@ class NodeOr:
     def evaluate(self, environment):
         for expression in self.expressions:
             value = expression.evaluate(environment)
+            if isExit(value):
+                return value
             if not value.isBoolean():
                 raise CklRuntimeError(
                     ValueString("ERROR"),
@@ -1853,6 +1950,8 @@ class NodeRequire:
                         modulespec = val.value
         else:
             modulespec = self.modulespec.evaluate(environment)
+            if isExit(modulespec):
+                return modulespec
             if not modulespec.isString():
                 raise CklRuntimeError(
                     ValueString("ERROR"),
@@ -1984,10 +2083,11 @@ class NodeReturn:
         self.pos = pos
 
     def evaluate(self, environment):
-        return ValueControlReturn(
-            self.expression.evaluate(environment) if self.expression else NULL,
-            self.pos,
-        )
+        value = self.expression.evaluate(environment) \
+            if self.expression else NULL
+        if isExit(value):
+            return value
+        return ValueControlReturn(value, self.pos)
 
     def __repr__(self):
         return (
@@ -2014,7 +2114,10 @@ class NodeSet:
     def evaluate(self, environment):
         result = ValueSet()
         for item in self.items:
-            result.addItem(item.evaluate(environment))
+            value = item.evaluate(environment)
+            if isExit(value):
+                return value
+            result.addItem(value)
         return result
 
     def __repr__(self):
@@ -2042,11 +2145,15 @@ class NodeSetComprehension:
         result = ValueSet()
         localEnv = environment.newEnv()
         lst = self.listExpr.evaluate(environment)
+        if isExit(lst):
+            return lst
         values = getCollectionValue(lst, self.what, self.pos)
         for listValue in values:
             localEnv.put(self.identifier, listValue)
             if self.conditionExpr:
                 condition = self.conditionExpr.evaluate(localEnv)
+                if isExit(condition):
+                    return condition
                 if not condition.isBoolean():
                     raise CklRuntimeError(
                         ValueString("ERROR"),
@@ -2055,9 +2162,15 @@ class NodeSetComprehension:
                         self.pos,
                     )
                 if condition.value:
-                    result.addItem(self.valueExpr.evaluate(localEnv))
+                    value = self.valueExpr.evaluate(localEnv)
+                    if isExit(value):
+                        return value
+                    result.addItem(value)
             else:
-                result.addItem(self.valueExpr.evaluate(localEnv))
+                value = self.valueExpr.evaluate(localEnv)
+                if isExit(value):
+                    return value
+                result.addItem(value)
         return result
 
     def __repr__(self):
@@ -2111,7 +2224,11 @@ class NodeSetComprehensionParallel:
         result = ValueSet()
         localEnv = environment.newEnv()
         list1 = self.listExpr1.evaluate(environment)
+        if isExit(list1):
+            return list1
         list2 = self.listExpr2.evaluate(environment)
+        if isExit(list2):
+            return list2
         values1 = getCollectionValue(list1, self.what1, self.pos)
         values2 = getCollectionValue(list2, self.what2, self.pos)
         for i in range(max(len(values1), len(values2))):
@@ -2123,6 +2240,8 @@ class NodeSetComprehensionParallel:
             )
             if self.conditionExpr:
                 condition = self.conditionExpr.evaluate(localEnv)
+                if isExit(condition):
+                    return condition
                 if not condition.isBoolean():
                     raise CklRuntimeError(
                         ValueString("ERROR"),
@@ -2131,9 +2250,15 @@ class NodeSetComprehensionParallel:
                         self.pos,
                     )
                 if condition.value:
-                    result.addItem(self.valueExpr.evaluate(localEnv))
+                    value = self.valueExpr.evaluate(localEnv)
+                    if isExit(value):
+                        return value
+                    result.addItem(value)
             else:
-                result.addItem(self.valueExpr.evaluate(localEnv))
+                value = self.valueExpr.evaluate(localEnv)
+                if isExit(value):
+                    return value
+                result.addItem(value)
         return result
 
     def __repr__(self):
@@ -2198,7 +2323,11 @@ class NodeSetComprehensionProduct:
         result = ValueSet()
         localEnv = environment.newEnv()
         list1 = self.listExpr1.evaluate(environment)
+        if isExit(list1):
+            return list1
         list2 = self.listExpr2.evaluate(environment)
+        if isExit(list2):
+            return list2
         values1 = getCollectionValue(list1, self.what1, self.pos)
         values2 = getCollectionValue(list2, self.what2, self.pos)
         for value1 in values1:
@@ -2207,6 +2336,8 @@ class NodeSetComprehensionProduct:
                 localEnv.put(self.identifier2, value2)
                 if self.conditionExpr:
                     condition = self.conditionExpr.evaluate(localEnv)
+                    if isExit(condition):
+                        return condition
                     if not condition.isBoolean():
                         raise CklRuntimeError(
                             ValueString("ERROR"),
@@ -2215,9 +2346,15 @@ class NodeSetComprehensionProduct:
                             self.pos,
                         )
                     if condition.value:
-                        result.addItem(self.valueExpr.evaluate(localEnv))
+                        value = self.valueExpr.evaluate(localEnv)
+                        if isExit(value):
+                            return value
+                        result.addItem(value)
                 else:
-                    result.addItem(self.valueExpr.evaluate(localEnv))
+                    value = self.valueExpr.evaluate(localEnv)
+                    if isExit(value):
+                        return value
+                    result.addItem(value)
         return result
 
     def __repr__(self):
@@ -2274,6 +2411,8 @@ class NodeWhile:
 
     def evaluate(self, environment):
         condition = self.expression.evaluate(environment)
+        if isExit(condition):
+            return condition
         if not condition.isBoolean():
             raise CklRuntimeError(
                 ValueString("ERROR"),
@@ -2292,6 +2431,8 @@ class NodeWhile:
             elif result.isReturn():
                 break
             condition = self.expression.evaluate(environment)
+            if isExit(condition):
+                return condition
             if not condition.isBoolean():
                 raise CklRuntimeError(
                     ValueString("ERROR"),
